@@ -134,7 +134,15 @@ def apply_file_tamper(rng, work, kind, opts=None):
     snap = covered(snapshot(work), dict(opts or {}, lstrip=None))
     files = sorted(p for p in snap if not p.startswith("alias/"))
     if kind == "add":
-        with open(os.path.join(work, "injected.bin"), "w") as f:
+        where = ""
+        if opts and opts.get("paths"):
+            # below a recorded directory - preferably one whose name extends another recorded entry's name
+            dirs = [d for d in opts["paths"] if os.path.isdir(os.path.join(work, d))]
+            if not dirs:
+                return False
+            look = [d for d in dirs if any(d != o and d.startswith(o) for o in opts["paths"])]
+            where = rng.choice(look or dirs) + "/"
+        with open(os.path.join(work, where + "injected.bin"), "w") as f:
             f.write("evil\n")
         return True
     if kind == "excluded":
@@ -209,7 +217,9 @@ class Honest:
         if opts["lstrip"]:
             kw["lstrip_paths"] = list(opts["lstrip"])
         if opts["base"]:
-            kw["base_path"] = self.work
+            # (relative, like the metadata directory below: the tools are called from the history's root)
+            kw["base_path"] = rng.choice([self.work, "work", "work"])
+        links_arg = rng.choice([self.links, "links"]) if opts["base"] else self.links
         file_tampers = ("edit", "add", "delete", "rename", "rewrite", "excluded")
         try:
             # with a base path the tools are called from another directory; the command changes into the tree itself
@@ -233,15 +243,23 @@ class Honest:
                     cmd = []
                 streams = rng.random() < 0.4
                 before = snapshot(self.work)
+                if opts["base"] and rng.random() < 0.25:
+                    # an attempt that fails while recording (an artifact that cannot be resolved), handled by the caller,
+                    # right before the honest call - in the same process, from the same place
+                    try:
+                        with contextlib.redirect_stdout(io.StringIO()), contextlib.redirect_stderr(io.StringIO()):
+                            rl.in_toto_run("attempt", plist + ["ostree:no-such-repo@ref"], [], [], **sign_kw, metadata_directory=links_arg, **kw)
+                    except Exception:  # pylint: disable=broad-except
+                        self.failed_attempts = getattr(self, "failed_attempts", 0) + 1
                 with contextlib.redirect_stdout(io.StringIO()), contextlib.redirect_stderr(io.StringIO()):
                     if mode != "record":
                         md = rl.in_toto_run(name, plist, plist, cmd, record_streams=streams, use_dsse=dsse, **sign_kw,
-                                            metadata_directory=self.links, compact_json=rng.random() < 0.3,
+                                            metadata_directory=links_arg, compact_json=rng.random() < 0.3,
                                             record_environment=rng.random() < 0.3, **kw)
                     else:
                         rl.in_toto_record_start(name, plist, use_dsse=dsse, **sign_kw, **kw)
                         subprocess.run(cmd, check=True, capture_output=True)
-                        rl.in_toto_record_stop(name, plist, metadata_directory=self.links, **sign_kw, **kw)
+                        rl.in_toto_record_stop(name, plist, metadata_directory=links_arg, **sign_kw, **kw)
                         md = None
                 after = snapshot(self.work)
                 self.steps.append({"name": name, "key": k, "extra": extra, "dsse": dsse, "mode": mode, "streams": streams, "cmd": cmd,
